@@ -250,9 +250,9 @@ impl Monitor for C04 {
                 }
                 let h = hops[0];
                 let recv = resolve_receiver(w, receiver, sender);
-                for c in funds {
-                    expected.push(("send".into(), sender.to_string(), w.pm.to_string(), c.denom.clone(), c.amount.u128()));
-                }
+                // the only thing a swap takes from its sender is the offer, and all of it goes
+                // into the offer reserve: any other coin riding along must have been refused
+                expected.push(("send".into(), sender.to_string(), w.pm.to_string(), h.offer_denom.clone(), h.offer_amount));
                 if h.return_amount > 0 {
                     expected.push(("send".into(), w.pm.to_string(), recv, h.ask_denom.clone(), h.return_amount));
                 }
@@ -266,15 +266,15 @@ impl Monitor for C04 {
             pm::ExecuteMsg::ExecuteSwapOperations { receiver, operations, .. } => {
                 kind = "route";
                 let recv = resolve_receiver(w, receiver, sender);
-                for c in funds {
-                    expected.push(("send".into(), sender.to_string(), w.pm.to_string(), c.denom.clone(), c.amount.u128()));
+                if let Some(h0) = hops.first() {
+                    expected.push(("send".into(), sender.to_string(), w.pm.to_string(), h0.offer_denom.clone(), h0.offer_amount));
                 }
                 if hops.len() != operations.len() {
                     rep.failed("route_chaining", None, format!("{} operations but {} executed hops", operations.len(), hops.len()), witness(json!({})));
                     return;
                 }
                 // each hop consumes exactly the previous hop's output
-                let mut prev: Option<(String, u128)> = funds.first().map(|c| (c.denom.clone(), c.amount.u128()));
+                let mut prev: Option<(String, u128)> = hops.first().and_then(|h0| funds.iter().find(|c| c.denom == h0.offer_denom)).map(|c| (c.denom.clone(), c.amount.u128()));
                 let mut chain_ok = true;
                 for (h, o) in hops.iter().zip(operations.iter()) {
                     let pm::SwapOperation::MantraSwap { token_in_denom, token_out_denom, pool_identifier } = o;
